@@ -562,12 +562,15 @@ class Roles:
 
     def main_async(self):
         """the async block main hands to block_on"""
-        m = self.main_body()
-        for n, uses in self.f.cg.spawn_roots.items():
-            for (how, inb, bb) in uses:
-                if how == "block_on" and inb == m.name:
-                    return self.V(self.f.bodies[n])
-        raise AnchorLost("async block passed to task::block_on in main")
+        def go():
+            m = self.main_body()
+            cands = sorted({n for n, uses in self.f.cg.spawn_roots.items() for (how, inb, bb) in uses if how == "block_on" and inb == m.name})
+            if not cands:
+                raise AnchorLost("async block passed to task::block_on in main")
+            # several blocks (a preliminary step run on its own): the main one is the one that drives the engine, i.e. reaches the most code
+            best = max(cands, key=lambda n: (len(self.f.cg.reach([n])), n))
+            return self.V(self.f.bodies[best])
+        return self._memo("main_async", go)
 
 
 PROCESS_SPAWN = re.compile(r"^(async_process|std::process|async_std::process)::Command::(spawn|output|status)$")
